@@ -7,7 +7,7 @@
    profile (Debug: overflow panics, Release: wraps): theorems hold for both.      *)
 From Coq Require Import ZArith QArith List.
 From MW Require Import Model.Base Model.F64 Model.Num Model.Ratio32 Model.NumArith Model.NumSpec
-  Proofs.GcdProofs Proofs.Ratio32Proofs Proofs.NumProofs.
+  Proofs.GcdProofs Proofs.Ratio32Proofs Proofs.NumProofs Proofs.NumDivProofs Proofs.NumInexactProofs.
 Import ListNotations.
 Open Scope Z_scope.
 
@@ -98,6 +98,16 @@ Theorem C08_remainder_exact : forall p a b za zb,
 Proof. exact remainder_exact. Qed.
 Print Assumptions C08_remainder_exact.
 
+(* remainder with an integer-valued Rational divisor too (Fixnum % n/1 on Rational64, BigInt % n/1):
+   everything except two integer-valued rationals and i64::MIN % -1/1 (which panics) *)
+Theorem C08_remainder_exact_gen : forall p a b za zb,
+  wfb a = true -> wfb b = true ->
+  int_of a = Some za -> int_of b = Some zb -> zb <> 0 -> both_rational a b = false ->
+  rem_known a b = false ->
+  exists r, num_rem p a b = Ok (Some r) /\ int_of r = Some (Z.rem za zb) /\ wfb r = true.
+Proof. exact remainder_exact_gen. Qed.
+Print Assumptions C08_remainder_exact_gen.
+
 (* ---- refutations of C08_full: one machine-checked witness per recorded class; the same
    witnesses are in the corpus of lib/props/c08.py and replayed on the implementation *)
 
@@ -149,22 +159,221 @@ Proof. split; [reflexivity|]. split; vm_compute; reflexivity. Qed.
 Print Assumptions C08_refuted_bigint_repr.
 
 (* ---- OPEN (stated, not proved; checked by the Python oracle on every run only) ------- *)
-(* OPEN: / on exact operands: exact result = true quotient (the checked_div route and
-   Rational32::new(l, r) with r > 0 are tied and oracle-checked; no Coq proof yet) *)
-Definition C08_div_exact_stmt : Prop := forall p a b r,
+(* / on exact operands (all 9 representation pairs, both profiles): an exact result is
+   well-formed and is the true quotient.  Covers Rational32::new(l, r) with r of either sign
+   and checked_div with its manual reduce.  The hypothesis "the Debug build does not panic"
+   is the recorded class ratio32-overflow-panic (C08_refuted_ratio32_overflow): under it the
+   Release build computes the same, well-formed value. *)
+Theorem C08_div_exact : forall p a b r,
   wfb a = true -> wfb b = true -> is_exact a = true -> is_exact b = true -> ~ (qv b == 0)%Q ->
   (forall s, num_div Debug a b <> Panic s) ->
   num_div p a b = Ok r -> is_exact r = true -> wfb r = true /\ (qv r * qv b == qv a)%Q.
-(* OPEN: op_inexact_only_if outside the recorded fallback classes *)
+Proof. exact div_exact. Qed.
+Print Assumptions C08_div_exact.
+
+(* num-rational's checked_div on positive-denominator operands, any width: unless the Debug
+   build panics (gcd(0, MIN)) the answer is None or the reduced exact quotient *)
+Theorem C08_ratio_checked_div : forall p w a b, 2 <= w -> rok w a -> rok w b -> fst b <> 0 ->
+  (exists s, rchecked_div Debug w a b = Panic s) \/
+  rchecked_div p w a b = Ok None \/
+  exists r, rchecked_div p w a b = Ok (Some r) /\ rwf w r /\ (rq r * rq b == rq a)%Q.
+Proof. exact rchecked_div_spec. Qed.
+Print Assumptions C08_ratio_checked_div.
+
+(* Ratio::new with a denominator of either sign *)
+Theorem C08_ratio_reduce_signed : forall p w n d, 2 <= w ->
+  in_int w n = true -> in_int w d = true -> d <> 0 ->
+  (exists s, rreduce Debug w (n, d) = Panic s) \/
+  exists n' d', rreduce p w (n, d) = Ok (n', d') /\ rwf w (n', d') /\ n' * d = n * d'.
+Proof. exact rreduce_gen. Qed.
+Print Assumptions C08_ratio_reduce_signed.
+
+(* op_inexact_only_if for +.  The statement as first written (kept, REFUTED below) quantifies
+   over an arbitrary [known_fallback], so it is false for known_fallback := nothing.  Corrected:
+   [add_takes_fallback a b] spells out, without running the code, the overflow conditions
+   under which Add leaves the exact representations (operand outside i32 next to a Rational;
+   BigInt next to a non-integer Rational; lcm / scaled numerators / sum outside i32 in
+   checked_add); [representable v] decides whether some well-formed exact number has the value
+   v; [add_known_fallback] is their conjunction = the recorded classes
+   float-fallback-representable and bigint-small-repr-dependence for +, and nothing else
+   (C08_add_known_fallback_tight).
+   The same is proved uniformly for + - * below (C08_op_*, C08_full_addsubmul_outside).
+   ... and for / (C08_div_outcome, C08_full_outside).
+   STILL OPEN: the variadic folds of the builtins (+ - * / applied to argument lists), modulo's
+   inexactness, abs floor ceiling truncate numerator denominator expt. *)
 Definition C08_inexact_only_if_stmt : Prop := forall p a b r (known_fallback : num -> num -> bool),
   wfb a = true -> wfb b = true -> is_exact a = true -> is_exact b = true ->
   known_fallback a b = false -> num_add p a b = Ok r -> is_exact r = false ->
   forall x, wfb x = true -> is_exact x = true -> ~ (qv x == qv a + qv b)%Q.
-(* OPEN: modulo = flooring remainder; abs floor ceiling truncate numerator denominator expt *)
+
+(* the result of + on exact operands is inexact exactly on the explicit overflow conditions *)
+Theorem C08_add_inexact_iff : forall p a b r,
+  wfb a = true -> wfb b = true -> is_exact a = true -> is_exact b = true ->
+  num_add p a b = Ok r -> is_exact r = negb (add_takes_fallback a b).
+Proof. exact add_inexact_iff. Qed.
+Print Assumptions C08_add_inexact_iff.
+
+Theorem C08_inexact_only_if : forall p a b r,
+  wfb a = true -> wfb b = true -> is_exact a = true -> is_exact b = true ->
+  add_known_fallback a b = false -> num_add p a b = Ok r -> is_exact r = false ->
+  forall x, wfb x = true -> is_exact x = true -> ~ (qv x == qv a + qv b)%Q.
+Proof. exact add_inexact_only_if. Qed.
+Print Assumptions C08_inexact_only_if.
+
+(* every member of the class is an instance of the defect: inexact although representable *)
+Theorem C08_add_known_fallback_tight : forall p a b r,
+  wfb a = true -> wfb b = true -> is_exact a = true -> is_exact b = true ->
+  add_known_fallback a b = true -> num_add p a b = Ok r ->
+  is_exact r = false /\ exists x, wfb x = true /\ is_exact x = true /\ (qv x == qv a + qv b)%Q.
+Proof. exact add_known_fallback_tight. Qed.
+Print Assumptions C08_add_known_fallback_tight.
+
+(* [representable] is exact: sound and complete for "some well-formed exact number has value v" *)
+Theorem C08_representable_sound : forall x v,
+  wfb x = true -> is_exact x = true -> (qv x == v)%Q -> representable v = true.
+Proof. exact representable_sound. Qed.
+Print Assumptions C08_representable_sound.
+Theorem C08_representable_complete : forall v, representable v = true ->
+  exists x, wfb x = true /\ is_exact x = true /\ (qv x == v)%Q.
+Proof. exact representable_complete. Qed.
+Print Assumptions C08_representable_complete.
+
+(* checked_add / checked_sub answer None exactly when one of the four intermediate values
+   leaves the machine width *)
+Theorem C08_ratio_checked_addsub_none_iff : forall (sub : bool) p w a b, 2 <= w -> rok w a -> rok w b ->
+  if addsub_fits sub w a b then exists r, rchecked_addsub sub p w a b = Ok (Some r)
+  else rchecked_addsub sub p w a b = Ok None.
+Proof. exact rchecked_addsub_fits. Qed.
+Print Assumptions C08_ratio_checked_addsub_none_iff.
+
+(* ---- + - * uniformly: [op_takes_fallback o a b] are the explicit overflow conditions of the
+   three operators, [op_known_fallback o a b] = fallback taken although the true result is
+   representable = the recorded classes float-fallback-representable and
+   bigint-small-repr-dependence, exactly (tightness below) *)
+Theorem C08_op_inexact_iff : forall o p a b r,
+  wfb a = true -> wfb b = true -> is_exact a = true -> is_exact b = true ->
+  op_fn o p a b = Ok r -> is_exact r = negb (op_takes_fallback o a b).
+Proof. exact op_inexact_iff. Qed.
+Print Assumptions C08_op_inexact_iff.
+
+Theorem C08_op_known_fallback_tight : forall o p a b r,
+  wfb a = true -> wfb b = true -> is_exact a = true -> is_exact b = true ->
+  op_known_fallback o a b = true -> op_fn o p a b = Ok r ->
+  is_exact r = false /\
+  exists x, wfb x = true /\ is_exact x = true /\ (qv x == op_q o (qv a) (qv b))%Q.
+Proof. exact op_known_fallback_tight. Qed.
+Print Assumptions C08_op_known_fallback_tight.
+
+(* C08_full for + - * (op_fn o = num_add / num_sub / num_mul, op_q o = Qplus / Qminus / Qmult)
+   on the complement of the decidable defect class: the operation is total, the result is
+   well-formed, an exact result is the true value, an inexact result is justified *)
+Theorem C08_full_addsubmul_outside : forall o p a b,
+  wfb a = true -> wfb b = true -> is_exact a = true -> is_exact b = true ->
+  op_known_fallback o a b = false ->
+  exists r, op_fn o p a b = Ok r /\ wfb r = true /\
+    (is_exact r = true -> (qv r == op_q o (qv a) (qv b))%Q) /\
+    (is_exact r = false ->
+     forall x, wfb x = true -> is_exact x = true -> ~ (qv x == op_q o (qv a) (qv b))%Q).
+Proof. exact op_full_outside. Qed.
+Print Assumptions C08_full_addsubmul_outside.
+
+Theorem C08_ratio_checked_mul_none_iff : forall p w a b, 2 <= w -> rok w a -> rok w b ->
+  if mul_fits w a b then exists r, rchecked_mul p w a b = Ok (Some r)
+  else rchecked_mul p w a b = Ok None.
+Proof. exact rchecked_mul_fits. Qed.
+Print Assumptions C08_ratio_checked_mul_none_iff.
+
+(* ---- / : the Debug build panics (class ratio32-overflow-panic), or the result exists in both
+   profiles and is inexact exactly on the explicit conditions [div_takes_fallback] (operands
+   outside i32; checked_div = None, given as the pure function [div_pure]) *)
+Theorem C08_div_outcome : forall p a b,
+  wfb a = true -> wfb b = true -> is_exact a = true -> is_exact b = true -> ~ (qv b == 0)%Q ->
+  (exists s, num_div Debug a b = Panic s) \/
+  exists r, num_div p a b = Ok r /\ is_exact r = negb (div_takes_fallback a b).
+Proof. exact div_outcome. Qed.
+Print Assumptions C08_div_outcome.
+
+Theorem C08_div_known_fallback_tight : forall p a b r,
+  wfb a = true -> wfb b = true -> is_exact a = true -> is_exact b = true -> ~ (qv b == 0)%Q ->
+  (forall s, num_div Debug a b <> Panic s) ->
+  div_known_fallback a b = true -> num_div p a b = Ok r ->
+  is_exact r = false /\ exists x, wfb x = true /\ is_exact x = true /\ (qv x == qv a / qv b)%Q.
+Proof. exact div_known_fallback_tight. Qed.
+Print Assumptions C08_div_known_fallback_tight.
+
+(* ---- C08_full, word for word, for all four operators and both profiles, with ONE extra
+   hypothesis: the operand pair is outside the decidable class [known] of its operator
+   (+ - *: fallback although representable; /: that, or the Debug build panics).  The classes
+   are the recorded findings ratio32-overflow-panic, float-fallback-representable and
+   bigint-small-repr-dependence; by the *_tight theorems every member of the fallback classes
+   really is a defect instance, so the hypothesis cannot be narrowed. *)
+Theorem C08_full_outside : forall p (op : profile -> num -> num -> out num) (opq : Q -> Q -> Q)
+    (known : num -> num -> bool),
+  In (op, opq, known)
+     [(num_add, Qplus, op_known_fallback AAdd); (num_sub, Qminus, op_known_fallback ASub);
+      (num_mul, Qmult, op_known_fallback AMul); (num_div, Qdiv, div_known)] ->
+  forall a b, wfb a = true -> wfb b = true -> is_exact a = true -> is_exact b = true ->
+  (opq = Qdiv -> ~ (qv b == 0)%Q) ->
+  known a b = false ->
+  exists r, op p a b = Ok r /\ wfb r = true /\
+    (is_exact r = true -> (qv r == opq (qv a) (qv b))%Q) /\
+    (is_exact r = false ->
+     forall x, wfb x = true -> is_exact x = true -> ~ (qv x == opq (qv a) (qv b))%Q).
+Proof. exact full_outside. Qed.
+Print Assumptions C08_full_outside.
+
+(* 2147483648 + -1/1 is the float 2147483647.0 although 2147483647 is a Fixnum *)
+Theorem C08_inexact_only_if_refuted : ~ C08_inexact_only_if_stmt.
+Proof.
+  intros H.
+  destruct (addsubmul_total Debug (Fixnum (2 ^ 31)) (Rational (-1) 1) eq_refl eq_refl eq_refl eq_refl)
+    as [[r Hr] _].
+  pose proof (add_inexact_iff Debug (Fixnum (2 ^ 31)) (Rational (-1) 1) r eq_refl eq_refl eq_refl eq_refl Hr) as X.
+  assert (K : add_takes_fallback (Fixnum (2 ^ 31)) (Rational (-1) 1) = true) by (vm_compute; reflexivity).
+  rewrite K in X. cbn [negb] in X.
+  apply (H Debug (Fixnum (2 ^ 31)) (Rational (-1) 1) r (fun _ _ => false)
+           eq_refl eq_refl eq_refl eq_refl eq_refl Hr X (Fixnum (2 ^ 31 - 1)) eq_refl eq_refl).
+  vm_compute. reflexivity.
+Qed.
+Print Assumptions C08_inexact_only_if_refuted.
+
+(* modulo = flooring remainder.  The statement as first written (kept below, now REFUTED) is
+   false in one arm: Fixnum modulo an integer-valued Rational (number.rs:870-878 runs the
+   remainder on Rational64, then Rational32 + Rational32).  [modulo_known] is exactly that
+   class: (1) i64::MIN by -1/1 panics (MIN % -1, both profiles); (2) rem + divisor outside
+   i32: checked_add answers None, modulo continues on floats and the result is inexact.
+   Outside it the theorem holds for every pair of integer representations, both profiles.
+   STILL OPEN: abs floor ceiling truncate numerator denominator expt. *)
 Definition C08_modulo_exact_stmt : Prop := forall p a b za zb,
   wfb a = true -> wfb b = true -> int_of a = Some za -> int_of b = Some zb -> zb <> 0 ->
   both_rational a b = false ->
   exists r, num_modulo p a b = Ok (Some r) /\ int_of r = Some (za mod zb).
+
+Theorem C08_modulo_exact : forall p a b za zb,
+  wfb a = true -> wfb b = true -> int_of a = Some za -> int_of b = Some zb -> zb <> 0 ->
+  both_rational a b = false -> modulo_known a b = false ->
+  exists r, num_modulo p a b = Ok (Some r) /\ int_of r = Some (za mod zb).
+Proof. exact modulo_exact. Qed.
+Print Assumptions C08_modulo_exact.
+
+(* (modulo 2147483646 2147483647/1) is the float 2147483646.0 in both profiles *)
+Theorem C08_modulo_exact_refuted : ~ C08_modulo_exact_stmt.
+Proof.
+  intros H.
+  assert (Nz : 2 ^ 31 - 1 <> 0) by (intros E; discriminate E).
+  destruct (H Debug (Fixnum (2 ^ 31 - 2)) (Rational (2 ^ 31 - 1) 1) (2 ^ 31 - 2) (2 ^ 31 - 1)
+              eq_refl eq_refl eq_refl eq_refl Nz eq_refl) as [r [Hr Ir]].
+  assert (E : inexact_result (match num_modulo Debug (Fixnum (2 ^ 31 - 2)) (Rational (2 ^ 31 - 1) 1) with
+                              | Ok (Some x) => Ok x | _ => NoFuel end) = true) by (vm_compute; reflexivity).
+  rewrite Hr in E. clear Hr. destruct r as [z|z|n d|f]; cbn in E, Ir; discriminate.
+Qed.
+Print Assumptions C08_modulo_exact_refuted.
+
+(* the other member of the class: (modulo -9223372036854775808 -1/1) panics in both profiles *)
+Theorem C08_modulo_refuted_min : forall p,
+  num_modulo p (Fixnum (- 2 ^ 63)) (Rational (-1) 1) = Panic P_DIVOVF.
+Proof. intros []; vm_compute; reflexivity. Qed.
+Print Assumptions C08_modulo_refuted_min.
 
 (* ---- non-vacuity *)
 Example C08_example_mixed :
@@ -174,4 +383,74 @@ Example C08_example_mixed :
   num_quotient Debug (Fixnum (- 2 ^ 63)) (Fixnum (-1)) = Ok (Some (BigInt (2 ^ 63))) /\
   rchecked_addsub false Debug 32 (1, 3) (1, 6) = Ok (Some (1, 2)) /\
   igcd Debug 32 (- 2 ^ 31) 6 = Ok 2.
+Proof. repeat split; vm_compute; reflexivity. Qed.
+
+(* C08_div_exact: the hypotheses hold on negative divisors, BigInt operands, the manual-reduce
+   route of checked_div; the excluded class is not empty *)
+Example C08_example_div :
+  (forall s, num_div Debug (Fixnum 6) (Fixnum (-4)) <> Panic s) /\
+  num_div Release (Fixnum 6) (Fixnum (-4)) = Ok (Rational (-3) 2) /\
+  (forall s, num_div Debug (Rational 3 4) (Rational (-9) 8) <> Panic s) /\
+  num_div Debug (Rational 3 4) (Rational (-9) 8) = Ok (Rational (-2) 3) /\
+  num_div Debug (BigInt 10) (Rational 4 3) = Ok (Rational 15 2) /\
+  num_div Release (Rational (2 ^ 31 - 1) 2) (Fixnum (2 ^ 31 - 1)) = Ok (Rational 1 2) /\
+  (exists s, num_div Debug (Fixnum 0) (Rational (- 2 ^ 31) 3) = Panic s).
+Proof.
+  repeat split; try (intros s; vm_compute; discriminate); try (vm_compute; reflexivity).
+  eexists; vm_compute; reflexivity.
+Qed.
+
+(* C08_inexact_only_if: a justified inexact sum (2^32 + 1/2: fallback taken, not representable,
+   so the hypotheses of the theorem hold), and members of the defect class *)
+Example C08_example_inexact :
+  add_takes_fallback (Fixnum (2 ^ 32)) (Rational 1 2) = true /\
+  add_known_fallback (Fixnum (2 ^ 32)) (Rational 1 2) = false /\
+  inexact_result (num_add Debug (Fixnum (2 ^ 32)) (Rational 1 2)) = true /\
+  add_known_fallback (Rational (2 ^ 31 - 1) 2) (Rational (2 ^ 31 - 1) 3) = false /\
+  inexact_result (num_add Release (Rational (2 ^ 31 - 1) 2) (Rational (2 ^ 31 - 1) 3)) = true /\
+  add_known_fallback (Fixnum (2 ^ 31)) (Rational (-1) 1) = true /\
+  add_known_fallback (BigInt 5) (Rational 1 2) = true /\
+  add_known_fallback (Rational (2 ^ 31 - 1) 1) (Rational 1 1) = true /\
+  add_takes_fallback (Fixnum 5) (Rational 1 2) = false.
+Proof. repeat split; vm_compute; reflexivity. Qed.
+
+(* C08_full_addsubmul_outside / C08_op_*: for * and -, a justified fallback (outside the class,
+   inexact), the witness of C08_refuted_float_fallback inside the class, exact cases outside *)
+Example C08_example_ops :
+  op_takes_fallback AMul (Fixnum (2 ^ 32)) (Rational 1 3) = true /\
+  op_known_fallback AMul (Fixnum (2 ^ 32)) (Rational 1 3) = false /\
+  inexact_result (num_mul Debug (Fixnum (2 ^ 32)) (Rational 1 3)) = true /\
+  op_known_fallback AMul (Fixnum (2 ^ 32)) (Rational 1 2) = true /\
+  op_known_fallback ASub (Rational 1 2) (Fixnum (2 ^ 31)) = false /\
+  inexact_result (num_sub Release (Rational 1 2) (Fixnum (2 ^ 31))) = true /\
+  op_known_fallback ASub (Rational (- 2 ^ 31) 1) (Fixnum 1) = true /\
+  op_takes_fallback ASub (Rational 7 2) (Fixnum 3) = false /\
+  num_sub Debug (Rational 7 2) (Fixnum 3) = Ok (Rational 1 2) /\
+  op_takes_fallback AMul (Rational (2 ^ 31 - 1) 2) (Fixnum 2) = false.
+Proof. repeat split; vm_compute; reflexivity. Qed.
+
+(* C08_full_outside on / : outside the class with an exact result, outside with a justified
+   inexact result ((/ 4294967296 3)), inside by fallback ((/ 4294967296 2)), inside by panic *)
+Example C08_example_div_full :
+  div_known (Fixnum 6) (Fixnum (-4)) = false /\ div_takes_fallback (Fixnum 6) (Fixnum (-4)) = false /\
+  div_known (Fixnum (2 ^ 32)) (Fixnum 3) = false /\
+  inexact_result (num_div Debug (Fixnum (2 ^ 32)) (Fixnum 3)) = true /\
+  div_known_fallback (Fixnum (2 ^ 32)) (Fixnum 2) = true /\
+  div_known (Rational 1 (2 ^ 31 - 1)) (Rational 2 3) = false /\
+  inexact_result (num_div Release (Rational 1 (2 ^ 31 - 1)) (Rational 2 3)) = true /\
+  div_debug_panics (Fixnum 1) (Fixnum (- 2 ^ 31)) = true /\
+  div_known (Rational 3 4) (Rational (-9) 8) = false.
+Proof. repeat split; vm_compute; reflexivity. Qed.
+
+(* C08_modulo_exact: hypotheses satisfiable on each interesting arm, incl. Fixnum by n/1 *)
+Example C08_example_modulo :
+  modulo_known (Fixnum (-7)) (Rational 3 1) = false /\
+  num_modulo Debug (Fixnum (-7)) (Rational 3 1) = Ok (Some (Rational 2 1)) /\
+  modulo_known (Fixnum (- 2 ^ 63)) (Fixnum (-1)) = false /\
+  num_modulo Release (Fixnum (- 2 ^ 63)) (Fixnum (-1)) = Ok (Some (Fixnum 0)) /\
+  num_modulo Debug (BigInt (2 ^ 70 + 2)) (Rational (-5) 1) = Ok (Some (BigInt (-4))) /\
+  num_modulo Release (Fixnum (2 ^ 40 + 1)) (Rational (- 2 ^ 31) 1) = Ok (Some (Rational (- 2 ^ 31 + 1) 1)) /\
+  modulo_known (Fixnum (2 ^ 31 - 2)) (Rational (2 ^ 31 - 1) 1) = true /\
+  rem_known (Fixnum (-7)) (Rational 3 1) = false /\
+  num_rem Debug (Fixnum (-7)) (Rational 3 1) = Ok (Some (Rational (-1) 1)).
 Proof. repeat split; vm_compute; reflexivity. Qed.
